@@ -3,13 +3,13 @@
 package main
 
 import (
-	"path/filepath"
-	"os"
 	"fmt"
 	"io"
 	"net/http"
 	"net/http/httptest"
 	"net/url"
+	"os"
+	"path/filepath"
 	"regexp"
 	"sort"
 	"strconv"
@@ -101,7 +101,7 @@ func driveC17(t *testing.T, out *vEmitter) {
 		"/files/plain.txt", "/files/release%20notes.txt", "/files/r%C3%A9sum%C3%A9.txt", "/files/a+b.txt", "/files/nope.txt",
 		// an encoded slash sitting exactly on the boundary of a configured path: with raw-path proxying the choice is made on the path as sent
 		"/a/b%2Fx", "/a%2Fb/x", "/a/b%2Fc", "/a%2Fb%2Fc", "/a/b%2fc/", "/api%2Fv2/x", "/api/v2%2Fitems", "/exact%2F", "/ab%2F",
-// re-spellings of the proxy's own probe paths: only the literal /ping and /ready are the proxy's, these belong to the upstream
+		// re-spellings of the proxy's own probe paths: only the literal /ping and /ready are the proxy's, these belong to the upstream
 		"/app/assets/logo.png?v=1", "/admin/assets/x.css", "/app/other", "/zebra/stripes/7", "/zoo", "/Zebra",
 		"/pin%67", "/%70ing?a=1", "/read%79", "/%72eady", "/p%69ng/x",
 		"/ws/chat", "/ws/", "/ws/a%2Fb?room=1", "/sock/a%20b?x=1", "/sock/", "/static-resp/x", "/a/", "/a/x", "/ab/x", "/a/b/x", "/a/b/c", "/a/b/c/", "/a/b/cd", "/nohost/x", "/a", "/ab", "/new/direct"}
@@ -498,7 +498,6 @@ func driveC17(t *testing.T, out *vEmitter) {
 		}
 	}
 }
-
 
 // vC17Wire puts the proxy behind a real HTTP server so that informational (1xx) responses of the
 // upstream, which a ResponseRecorder cannot represent, are exercised: whatever the upstream sends
